@@ -16,6 +16,7 @@ class Prop(BaseProp):
         "ShardFileManager (collections, mtime ordering, u16 narrowing) is covered by the direct oracle on real histories, and by the theorem that every answer it can return comes from chunk_hash_dedup_query_direct, which is truthful for any hint",
     ]
     assumptions = [
+        'local-lookup theorem: StoreOk key hypothesis and the C01 invariant; on-disk end-to-end theorem: well-formed records, byte-valued chunk hashes, shard below 4 GiB, 64-bit totals',
         "on-disk theorem: the bytes at the hinted block position are the serialisation of a well-formed block (proved of every producer in C09) and the hint points inside it",
         "where several truthful candidates exist (equal truncated keys; unstable sort) the comparator accepts any member of the model's candidate set",
     ]
